@@ -18,3 +18,12 @@ package hash
 //@ lemma id_order(a Event, b Event)
 //@   requires bytesOK(a) && bytesOK(b) && idless(a, b)
 //@   ensures  be32at(a, 0) < be32at(b, 0) || (be32at(a, 0) == be32at(b, 0) && be32at(a, 4) <= be32at(b, 4))
+//@
+//@ spec distinctN(hh Events, n int) bool = forall(i, 0, n, forall(j, 0, n, i != j ==> hh[i] != hh[j]))
+//@ func (Events).Set
+//@   ensures  fresh(result) && forall(h Event, has(result, h) == exists(i, 0, len(hh), hh[i] == h))
+//@   ensures  (len(result) == len(hh)) == distinctN(hh, len(hh)) && len(result) <= len(hh)
+//@   loop 1 modifies set[*]
+//@   loop 1 invariant 0 <= _k && _k <= len(hh) && len(set) <= _k
+//@   loop 1 invariant forall(h Event, has(set, h) == exists(i, 0, _k, hh[i] == h))
+//@   loop 1 invariant (len(set) == _k) == distinctN(hh, _k)
